@@ -573,6 +573,11 @@ func (fs *fileSystem) Rename(oldname, newname string) error {
 			return oldinode, err
 		}
 		accepted.SetParent(newdirf.inode, newname)
+		if newdirf.inode == olddirf.inode && newname == oldname {
+			// Renamed onto itself: old and new are the same
+			// directory entry, which must stay.
+			return oldinode, nil
+		}
 		return nil, nil
 	})
 	return err
